@@ -99,15 +99,7 @@ def run(ctx, col, tier):
           "tree.ndata = {k: v[id_map] for k, v in tree.ndata.items()}"], "gather"),
         ("id / pid are overwritten by the new topology", ["tree.ndata.update(id=new_ids, pid=new_pids)"], "overwrite"),
     ], fixed=("tree", "sort_nodes_impl"))
-    for n in own_nodes(t):
-        if isinstance(n, (ast.DictComp, ast.For)):
-            g = n.generators[0] if isinstance(n, ast.DictComp) else n
-            it = norm_src(g.iter)
-            if "ndata" not in it and ("names" in it or "cols" in it or isinstance(g.iter, (ast.List, ast.Tuple))) \
-                    and any(isinstance(x, ast.Subscript) and norm_src(x.value).endswith("ndata") for x in ast.walk(n)):
-                col.bad("R-UNIF", t.qualname, t.loc(n), "the permutation covers every key of the tree",
-                        f"the row permutation runs over `{it}` only: keys outside it (extra per-node columns) keep their old "
-                        f"row order and end up on the wrong nodes", stmt="gather-keys", definite=True)
+    tree_gather_keys(ctx, col, "R-UNIF")
     st = repo.get_def(f"{TU}.sort_tree")
     col.text_group("R-UNIF", st.qualname, st, [("sort_tree sorts a copy", ["return _sort_tree(tree.copy())"], "copy")], fixed=("_sort_tree", "tree"))
     rs = repo.get_def("swcgeom.core.swc_utils.io.read_swc")
@@ -134,6 +126,26 @@ def run(ctx, col, tier):
 
     for q, what in ((f"{TU}.sort_tree", "sort_tree"), (f"{NORM}.sort_nodes_", "sort_nodes_")):
         recursion_free(ctx, col, "R-CG", [q], f"recursion-free from {what}")
+
+
+def tree_gather_keys(ctx, col, rule):
+    """_sort_tree must permute every key of tree.ndata: a literal / names-derived subset leaves the
+    extra per-node columns in their old row order."""
+    repo = ctx.repo
+    t = repo.get_def(f"{TU}._sort_tree")
+    hit = False
+    for n in own_nodes(t):
+        if isinstance(n, (ast.DictComp, ast.For)):
+            g = n.generators[0] if isinstance(n, ast.DictComp) else n
+            it = norm_src(g.iter)
+            if "ndata" not in it and ("names" in it or "cols" in it or isinstance(g.iter, (ast.List, ast.Tuple))) \
+                    and any(isinstance(x, ast.Subscript) and norm_src(x.value).endswith("ndata") for x in ast.walk(n)):
+                hit = True
+                col.bad(rule, t.qualname, t.loc(n), "the renumbering permutes every key of the tree",
+                        f"the row permutation runs over `{it}` only: keys outside it (extra per-node columns) keep their old "
+                        f"row order and end up on the wrong nodes", stmt="gather-keys", definite=True)
+    if not hit:
+        col.ok(rule, t.qualname, t.loc(), "the renumbering permutes every key of the tree (no literal / names-derived key subset)", stmt="gather-keys")
 
 
 def counter_rule(ctx, col):
